@@ -126,8 +126,10 @@ pub struct Extract {
     pub fns: Vec<FnInfo>,
     /// every string literal of the file with its evaluated value and line
     pub strings: Vec<(String, usize)>,
-    /// every identifier token of the file (outside attributes' string contents)
+    /// every identifier of the syntax tree (outside attributes' string contents)
     pub idents: Vec<(String, usize)>,
+    /// identifier-like tokens inside macro bodies (keywords included: they are plain tokens there)
+    pub macro_idents: Vec<(String, usize)>,
     /// doc attributes (`///` and `//!`), evaluated
     pub docs: Vec<String>,
     pub duplicate_items: Vec<String>,
@@ -298,13 +300,16 @@ impl<'ast, 'a> Visit<'ast> for Collector<'a> {
     fn visit_ident(&mut self, i: &'ast proc_macro2::Ident) {
         self.ex.idents.push((i.to_string(), i.span().start().line));
     }
+    fn visit_lifetime(&mut self, _l: &'ast syn::Lifetime) {
+        // the name of a lifetime ('static) is not an identifier in the sense of the property
+    }
     fn visit_macro(&mut self, m: &'ast syn::Macro) {
         // macro bodies are token streams: collect string literals and identifiers from them too
         fn walk(ts: TokenStream, ex: &mut Extract) {
             for t in ts {
                 match t {
                     TokenTree::Group(g) => walk(g.stream(), ex),
-                    TokenTree::Ident(i) => ex.idents.push((i.to_string(), i.span().start().line)),
+                    TokenTree::Ident(i) => ex.macro_idents.push((i.to_string(), i.span().start().line)),
                     TokenTree::Literal(l) => {
                         if let Ok(s) = syn::parse_str::<syn::LitStr>(&l.to_string()) {
                             ex.strings.push((s.value(), l.span().start().line));
